@@ -98,8 +98,9 @@ def assigned_names(stmts):
 
 class Interp(ExprMixin):
     def __init__(self, repo, inline=(), types=None, facts=None, max_paths=256, max_depth=4,
-                 symbolic_globals=False, inline_ctor=(), unroll=False):
+                 symbolic_globals=False, inline_ctor=(), unroll=False, literal_tables=False):
         self.repo = repo
+        self.literal_tables = literal_tables        # module-level literal dict / tuple tables are read by value
         self.inline_set = set(inline)
         self.inline_ctor = set(inline_ctor)
         self.types = dict(types or {})       # atom -> ClassInfo
@@ -474,6 +475,9 @@ class Interp(ExprMixin):
                         return pr.items[1]
                 if all(isinstance(pr, Tup) and isinstance(pr.items[0], (Const, Poly)) for pr in ra[2]):
                     return args[1] if len(args) > 1 else NONE
+        if ra is not None and ra[0] == 'app' and ra[1] == 'dict' and name in ('keys', 'values') and not args \
+                and all(isinstance(pr, Tup) and len(pr) == 2 for pr in ra[2]):
+            return Tup([pr.items[0 if name == 'keys' else 1] for pr in ra[2]], 'tuple')
         if ra is not None and ra[0] == 'app' and ra[1] == 'kwargs' and name in ('pop', 'get') and args:
             for pr in ra[2]:
                 if isinstance(pr, Tup) and pr.items[0] == args[0]:
